@@ -114,31 +114,84 @@ def _sub_cur(t: Term, cur_key: str) -> Term:
     return map_children(t, lambda x: _sub_cur(x, cur_key))
 
 
-@rule("C16.R3", "resumption is examined at each step begin of every target market and happens once the clock has passed halt start + length", "T7 comparator (necessary condition)", floor=2)
+@rule("C16.R3", "resumption is examined at each step begin of every target market and happens once the clock has passed halt start + length; a halted target market is left halted only for a stated reason", "T7 comparator + T3 justification of every non-resuming path", floor=2)
 def r3(ctx: Ctx) -> None:
     f = ctx.func(f"{THR}.hooked_before_step_for_market")
-    n = 0
-    for top in ctx.paths(f.qualname):
-        for l in loops(top):
-            for bp in l.paths:
-                ons = [e for e in bp.events if e.kind == "store" and e.attr in ("_is_running", "with_order_execution") and e.value != ("const", False)]
-                if not ons:
-                    continue
-                n += 1
-                cs = [(strip_ver(c), pol) for c, pol, _ in top.conds if strip_ver(c)[0] == "cmp" and strip_ver(c)[1] in ("<", "<=")]
-                ok = len(cs) == 1
+    want = cmp_nf(">", ("attr", ("sym", "market"), "time"), ("bin", "+", ("attr", ("sym", "self"), "halting_time_started"), ("attr", ("sym", "self"), "halting_time_length")), integer=True)
+    wneg = cmp_nf("<=", ("attr", ("sym", "market"), "time"), ("bin", "+", ("attr", ("sym", "self"), "halting_time_started"), ("attr", ("sym", "self"), "halting_time_length")), integer=True)
+
+    def classify(c: Term, pol: bool, el: Term) -> str:
+        """what a decision on a path says about resuming: `go` (needed for it), `skip:<why>` (a stated
+        reason not to), `neutral`, `sentinel` (start time compared with a constant) or `unknown`"""
+        c = strip_ver(c)
+        while c[0] == "not":
+            c, pol = strip_ver(c[1]), not pol
+        k = key(c)
+        if c[0] == "cmp" and c[1] in ("<", "<=", ">", ">="):
+            try:
+                nf = nf_cmp(c if pol else ("not", c), integer=True)
+            except Unrecognised:
                 nf = None
-                if ok:
-                    try:
-                        nf = nf_cmp(cs[0][0] if cs[0][1] else ("not", cs[0][0]), integer=True)
-                    except Unrecognised:
-                        ok = False
-                want = cmp_nf(">", ("attr", ("sym", "market"), "time"), ("bin", "+", ("attr", ("sym", "self"), "halting_time_started"), ("attr", ("sym", "self"), "halting_time_length")), integer=True)
-                ctx.check(ok and nf == want, f, f.node, "resume comparator", "market time > halting_time_started + halting_time_length", str(nf))
+            if nf == want:
+                return "go"
+            if nf == wneg:
+                return "skip:before the end of the halt"
+        if c[0] == "cmp" and c[1] in ("==", "is", "!=", "is not", "in", "not in"):
+            op, a, b = c[1], strip_ver(c[2]), strip_ver(c[3])
+            pos = pol if op in ("==", "is", "in") else not pol
+            ks = {key(a), key(b)}
+            if op in ("==", "is", "!=", "is not") and ks == {key(el), "market"} and key(el) != "market":
+                return "go" if pos else "skip:another market"
+            if op in ("in", "not in") and key(a) == "market" and key(b) in ("self.target_markets.values()", "list(self.target_markets.values())"):
+                return "go" if pos else "skip:not a target market"
+            if op in ("in", "not in") and key(a) in (f"{key(el)}.market_id", "market.market_id") and key(b) in ("self.halted_sessions", "self.halted_sessions.keys()"):
+                return "neutral" if pos else "skip:no halt recorded for the market"
+            if op in ("==", "is", "!=", "is not") and "simulator.current_session" in ks and NONE in (a, b):
+                return "neutral"
+            if op in ("==", "is", "!=", "is not") and "simulator.current_session" in ks and any("halted_session" in x for x in ks):
+                return "neutral" if pos else "skip:halt belongs to another session"
+            if op in ("==", "!=", "is", "is not") and "self.halting_time_started" in ks and any(x[0] == "const" for x in (a, b)):
+                return "sentinel"
+        return "unknown"
+
+    full: List[Any] = []  # (conds, events, element, node, exit)
+    for top in ctx.paths(f.qualname):
+        ls = [l for l in loops(top) if any(key(x) == "self.target_markets" for x in subterms(strip_ver(l.iter)))]
+        others = [l for l in loops(top) if l not in ls]
+        if others:
+            ctx.unrec(f, others[0].node, "loop of the resume handler", "a loop that does not walk the target table is not modelled")
+            return
+        if ls:
+            for l in ls:
                 el = ("sym", f"{l.target[0]}∈{l.loopid}")
-                tgt = [pol for c, pol, _ in bp.conds if strip_ver(c)[0] == "cmp" and strip_ver(c)[1] == "==" and {key(strip_ver(c)[2]), key(strip_ver(c)[3])} == {key(el), "market"}]
-                run = [e for e in ons if e.attr == "_is_running"]
-                ctx.check(tgt == [True] and len(run) == 1 and run[0].base == el and run[0].value == ("const", True), f, l.node, "the market being stepped is the one set running again", "if m == market: m._is_running = True", f"target test={tgt} running stores={[short(e.target) for e in run]}")
+                for bp in l.paths:
+                    full.append((list(top.conds) + list(bp.conds), list(bp.events), el, l.node, bp.exit[0]))
+        else:
+            full.append((list(top.conds), [e for e in top.events if e.kind == "store"], ("sym", "market"), f.node, top.exit[0]))
+    n = 0
+    for conds, evs, el, node, ex in full:
+        if ex == "raise":
+            continue
+        ons = [e for e in evs if e.kind == "store" and e.attr in ("_is_running", "with_order_execution") and e.value != ("const", False)]
+        kinds = [classify(c, pol, el) for c, pol, _ in conds]
+        if ons:
+            n += 1
+            ctx.check(kinds.count("go") >= 1 and any(k == "go" and strip_ver(c)[0] == "cmp" and strip_ver(c)[1] in ("<", "<=", ">", ">=") for k, (c, _, _) in zip(kinds, conds)), f, node, "resume comparator", "market time > halting_time_started + halting_time_length", " & ".join(short(c) for c, _, _ in conds)[:200])
+            tgt_ok = any(k == "go" and strip_ver(c)[1] not in ("<", "<=", ">", ">=") for k, (c, _, _) in zip(kinds, conds))
+            run = [e for e in ons if e.attr == "_is_running"]
+            ctx.check(tgt_ok and len(run) == 1 and run[0].base == el and run[0].value == ("const", True), f, node, "the market being stepped is the one set running again", "if m == market: m._is_running = True", f"target test={'yes' if tgt_ok else 'no'} running stores={[short(e.target) for e in run]}")
+            continue
+        why = [k for k in kinds if k.startswith("skip:")]
+        if why:
+            ctx.holds(f, node, f"path without resumption: {why[0][5:]}")
+            continue
+        shown = " & ".join(("" if pol else "not ") + short(c) for c, pol, _ in conds)[:240]
+        if "sentinel" in kinds:
+            ctx.violated(f, node, "every path that leaves a halted target market halted has a stated reason", "before the end of the halt / another market / no halt recorded / halt of another session", f"left halted because of the value of halting_time_started alone (any step, 0 included, can be the start of a halt): {shown}")
+        elif "unknown" in kinds:
+            ctx.unrec(f, node, "path without resumption", f"decision not recognised as a reason to leave the market halted: {shown}")
+        else:
+            ctx.violated(f, node, "every path that leaves a halted target market halted has a stated reason", "before the end of the halt / another market / no halt recorded / halt of another session", f"no reason on the path: {shown}")
     ctx.require(n >= 1, f"{THR}: resuming path not found")
     hooks, _ = declared_hooks(ctx, THR)
     g = ctx.func(f"{THR}.hook_registration")
@@ -208,3 +261,10 @@ def h6(ctx: Ctx) -> None:
     from .c18 import r1 as inheritance_rule
 
     inheritance_rule(ctx)
+
+
+@rule("C16.H7", "mechanism shared with C13: the hooks the rule declares are registered for that very rule, whatever other events the session has", "T4 + closure capture (same rule as C13.R5)", floor=3)
+def h7(ctx: Ctx) -> None:
+    from .c13 import r5 as registration_rule
+
+    registration_rule(ctx)
